@@ -11,8 +11,17 @@
    ordinary orphan from then on).  Time is carried by Tick events and never decreases; a file written long
    ago and committed only now is simply a long gap between DataW and Flip.
 
-   The collector (repaired order): GMarks timeout (protection := targets of the markers present now, the
-   abandonment cutoff is fixed) ; GSweep f for listed markers the REGENERATED kernel classifies as
+   A PRE-BUILT file (Transaction.append_files) exists before its transaction and may be arbitrarily old:
+   Stage mt (the file appears under data/ with any modification time up to now; unreferenced and unmarked, it
+   is an orphan to the collector) ; AdoptMark (append_files registers its marker) ; Adopt (append_files finds
+   no announced collection run and the file still in place: from here on it is a written, marked file like
+   any other) -- or Abandon (the adoption is refused / given up: marker removed, the file is an orphan
+   again).  `TAdoptBare` is adoption as the code did it before the repair (no marker, no look at running
+   collections): `gstep` has no such step; `gstep_unrepaired` has, and C06 fails for it (Props/C06.v).
+
+   The collector (repaired order): GAnnounce (Table.garbage_collect announces the run under
+   metadata/collecting/ BEFORE anything else; withdrawn at GEnd) ; GMarks timeout (protection := targets of
+   the markers present now, the abandonment cutoff is fixed) ; GSweep f for listed markers the REGENERATED kernel classifies as
    abandoned (the marker is deleted and protects nothing -- Gen/GenGCRace.v gen_marker_age_ok /
    gen_marker_action: older than the abandonment timeout, whatever else is true of the marker or its file) ;
    GMeta (reach := files referenced now) ; then one or more rounds of GList grace (listing := files present
@@ -29,8 +38,8 @@ Open Scope Z_scope.
 
 Definition tid := nat.
 
-Inductive tpc := TNew | TMarked | TWritten | TFlipped | TDone | TRolled | TOrphaned.
-Inductive gpc := GIdle | GGotMarks | GGotReach | GListed.
+Inductive tpc := TNew | TMarked | TWritten | TFlipped | TDone | TRolled | TOrphaned | TPre | TAdoptM.
+Inductive gpc := GIdle | GAnnounced | GGotMarks | GGotReach | GListed.
 
 Record gworld := {
   g_now : Z;
@@ -54,7 +63,8 @@ Record gworld := {
 Inductive gevent :=
 | Tick (dt : Z)
 | TMarkW (t : tid) | TDataW (t : tid) | TFlip (t : tid) | TMarkD (t : tid) | TRollback (t : tid) | TAbandon (t : tid)
-| GMarks (timeout : Z) | GSweep (t : tid) | GMeta | GList (grace : Z) | GDel (t : tid) | GDelOrphan (n : nat) | GEnd.
+| TStage (t : tid) (mt : Z) | TAdoptMark (t : tid) | TAdopt (t : tid) | TAdoptBare (t : tid)
+| GAnnounce | GMarks (timeout : Z) | GSweep (t : tid) | GMeta | GList (grace : Z) | GDel (t : tid) | GDelOrphan (n : nat) | GEnd.
 
 Definition updf {A} (t : tid) (v : A) (f : tid -> A) : tid -> A := fun u => if Nat.eqb u t then v else f u.
 
@@ -98,13 +108,36 @@ Definition gstep (w : gworld) (e : gevent) : option gworld :=
     end
   | TAbandon t =>
     match g_tpc w t with
-    | TWritten => Some (with_tx w t TOrphaned (g_mtime w t) (g_present w t) false false (g_mkmtime w t))
+    | TWritten | TAdoptM => Some (with_tx w t TOrphaned (g_mtime w t) (g_present w t) false false (g_mkmtime w t))
+    | _ => None
+    end
+  | TStage t mt =>
+    match g_tpc w t with
+    | TNew => if mt <=? g_now w then Some (with_tx w t TPre mt true false false (g_mkmtime w t)) else None
+    | _ => None
+    end
+  | TAdoptMark t =>
+    match g_tpc w t with
+    | TPre => Some (with_tx w t TAdoptM (g_mtime w t) (g_present w t) true false (g_now w))
+    | _ => None
+    end
+  | TAdopt t =>
+    match g_tpc w t, g_gpc w with
+    | TAdoptM, GIdle =>             (* no collection run is announced ... *)
+      if g_present w t              (* ... and the file is still in place *)
+      then Some (with_tx w t TWritten (g_mtime w t) (g_present w t) (g_marker w t) false (g_mkmtime w t)) else None
+    | _, _ => None
+    end
+  | TAdoptBare t => None            (* the repaired code has no such step (see gstep_unrepaired) *)
+  | GAnnounce =>
+    match g_gpc w with
+    | GIdle => Some (with_gc w GAnnounced (g_prot w) (g_reach w) (g_now w) (g_cutoff w) (g_listing w) (g_mcut w) (g_orphans w))
     | _ => None
     end
   | GMarks timeout =>
     match g_gpc w with
-    | GIdle => Some (with_gc w GGotMarks (g_marker w) (g_reach w) (g_now w) (g_cutoff w) (g_listing w)
-                             (gen_marker_cutoff (g_now w) timeout) (g_orphans w))
+    | GAnnounced => Some (with_gc w GGotMarks (g_marker w) (g_reach w) (g_start w) (g_cutoff w) (g_listing w)
+                                  (gen_marker_cutoff (g_now w) timeout) (g_orphans w))
     | _ => None
     end
   | GSweep t =>
@@ -161,6 +194,23 @@ Definition gstep (w : gworld) (e : gevent) : option gworld :=
     | GIdle => None
     | _ => Some (with_gc w GIdle (g_prot w) (g_reach w) (g_start w) (g_cutoff w) (g_listing w) (g_mcut w) (g_orphans w))
     end
+  end.
+
+(* Adoption of a pre-built file as the code did it BEFORE the repair: no marker, no look at running
+   collections -- the staged file simply becomes a file of the transaction. *)
+Definition gstep_unrepaired (w : gworld) (e : gevent) : option gworld :=
+  match e with
+  | TAdoptBare t =>
+    match g_tpc w t with
+    | TPre => if g_present w t then Some (with_tx w t TWritten (g_mtime w t) true false false (g_mkmtime w t)) else None
+    | _ => None
+    end
+  | _ => gstep w e
+  end.
+Fixpoint grun_strict_unrepaired (w : gworld) (evs : list gevent) : option gworld :=
+  match evs with
+  | [] => Some w
+  | e :: evs' => match gstep_unrepaired w e with Some w' => grun_strict_unrepaired w' evs' | None => None end
   end.
 
 Definition gstep_skip w e := match gstep w e with Some w' => w' | None => w end.
